@@ -456,9 +456,94 @@ fn string_from_utf8''')]},
      'edits': [(COMP, "        let value = match s.previous.source.as_str().parse::<f64>() {\n            Ok(n) => n,", "        let value = match s.previous.source.as_str().parse::<f32>() {\n            Ok(n) => n as f64,")]},
     {'name': 'D3 lexer absorbs a trailing dot', 'prop': 'C19', 'expect': 'D3 / Scanner::number advance',
      'edits': [(SCAN, '        if self.peek() == "." && is_digit(self.peek_next()) {\n            self.advance();', '        if self.peek() == "." && self.peek_next() != "." {\n            self.advance();')]},
+    # ---- C18 ----------------------------------------------------------------------------------------
+    {'name': 'Q3 VecIter advances before it reads', 'prop': 'C18', 'expect': 'Q3 / ObjVecIter::next',
+     'edits': [(OBJ, "        let ret = borrowed_vec.elements[self.current];\n        self.current += 1;\n        Some(ret)",
+                "        self.current += 1;\n        let ret = borrowed_vec.elements[self.current - 1 + 1 - 1];\n        Some(ret)")]},
+    {'name': 'Q3 RangeIter yields the advanced value', 'prop': 'C18', 'expect': 'Q3 / ObjRangeIter::next',
+     'edits': [(OBJ, "        let ret = Value::Number(self.current as f64);\n        self.current += self.step;\n        Some(ret)",
+                "        self.current += self.step;\n        let ret = Value::Number(self.current as f64);\n        Some(ret)")]},
+    {'name': 'Q3 range step of two', 'prop': 'C18', 'expect': 'Q3 / ObjRangeIter::new',
+     'edits': [(OBJ, "step: if iterable.begin < iterable.end { 1 } else { -1 },", "step: if iterable.begin < iterable.end { 2 } else { -1 },")]},
+    {'name': 'Q1 a new VecIter starts at the second element', 'prop': 'C18', 'expect': 'Q1 / ObjVecIter::new',
+     'edits': [(OBJ, "        ObjVecIter {\n            class,\n            iterable,\n            current: 0,", "        ObjVecIter {\n            class,\n            iterable,\n            current: 1,")]},
+    {'name': 'Q2 exhausted VecIter returns nil instead of StopIter', 'prop': 'C18', 'expect': 'Q2 / vec_iter_next',
+     'edits': [(CORE, "    let iter = receiver!(vm, 0, try_as_obj_vec_iter, \"VecIter\");\n    let next = {\n        let mut borrowed_iter = iter.borrow_mut();\n        borrowed_iter.next()\n    };\n    Ok(next.unwrap_or_else(|| Value::ObjInstance(vm.new_root_obj_stop_iter().as_gc())))",
+                "    let iter = receiver!(vm, 0, try_as_obj_vec_iter, \"VecIter\");\n    let next = {\n        let mut borrowed_iter = iter.borrow_mut();\n        borrowed_iter.next()\n    };\n    Ok(next.unwrap_or(Value::None))")]},
+    {'name': 'Q2 the for loop tests another class', 'prop': 'C18', 'expect': 'Q2 / JumpIfStopIter',
+     'edits': [(VM, "        let offset = self.read_short();\n        let stop_iter_class = self.class_store.stop_iter_class();", "        let offset = self.read_short();\n        let stop_iter_class = self.class_store.object_class();")]},
+    {'name': 'Q4 loop header recorded after IterNext', 'prop': 'C18', 'expect': 'Q4 / loop header',
+     'edits': [(COMP, "        self.emit_byte(OpCode::IterNext as u8);\n        self.emit_bytes([OpCode::SetLocal as u8, loop_var as u8]);",
+                "        self.emit_bytes([OpCode::SetLocal as u8, loop_var as u8]);"),
+               (COMP, "        self.compiler_mut().push_loop();\n        let (loop_start, _) = self\n            .compiler()\n            .current_loop_header()\n            .expect(\"Expected usize.\");",
+                "        self.emit_byte(OpCode::IterNext as u8);\n        self.compiler_mut().push_loop();\n        let (loop_start, _) = self\n            .compiler()\n            .current_loop_header()\n            .expect(\"Expected usize.\");")]},
+    {'name': 'B9 hidden for-loop iterator local added without looking at the result (regression of 611150e)', 'prop': 'C04', 'expect': 'B9 / for_statement -> add_local',
+     'edits': [(COMP, "        if !self\n            .compiler_mut()\n            .add_local(&Token::from_string(loop_iter_name))\n        {\n            self.error(\"Too many variables in function.\");\n        }\n",
+                "        let _ = self.compiler_mut().add_local(&Token::from_string(loop_iter_name));\n")]},
+    {'name': 'B9 pop_loop result dropped in while_statement', 'prop': 'C04', 'expect': 'B9 / while_statement -> pop_loop',
+     'edits': [(COMP, "        self.patch_jump(exit_jump);\n        self.emit_byte(OpCode::Pop as u8);\n        match self.compiler_mut().pop_loop() {\n            Ok(_) => {}\n            Err(e) => self.compiler_error(e),\n        }\n    }\n\n    fn synchronise",
+                "        self.patch_jump(exit_jump);\n        self.emit_byte(OpCode::Pop as u8);\n        let _ = self.compiler_mut().pop_loop();\n    }\n\n    fn synchronise")]},
+    {'name': 'R1 edge traced through the payload impl (Deref of the handle), box never coloured', 'prop': 'C01', 'expect': 'R1 / yarel::object::ObjRangeIter / iterable',
+     'edits': [(OBJ, "impl GcManaged for ObjRangeIter {\n    fn mark(&self) {\n        self.iterable.mark();\n    }\n\n    fn blacken(&self) {\n        self.iterable.blacken();\n    }",
+                "impl GcManaged for ObjRangeIter {\n    fn mark(&self) {\n        ObjRange::mark(&self.iterable);\n    }\n\n    fn blacken(&self) {\n        ObjRange::blacken(&self.iterable);\n    }")]},
+    {'name': 'Q5 VecIter stops tracing its vector', 'prop': 'C18', 'expect': 'Q5 / ObjVecIter.iterable',
+     'edits': [(OBJ, "impl GcManaged for ObjVecIter {\n    fn mark(&self) {\n        self.iterable.mark();\n    }\n\n    fn blacken(&self) {\n        self.iterable.blacken();\n    }",
+                "impl GcManaged for ObjVecIter {\n    fn mark(&self) {}\n\n    fn blacken(&self) {}")]},
+    # ---- round-2 rules ------------------------------------------------------------------------------
+    {'name': 'X8 in_try_block restored only after the catch block', 'prop': 'C08', 'expect': 'X8 / exactly the try body',
+     'edits': [(COMP, "        self.end_scope();\n        self.compiler_mut().in_try_block = prev_in_try_block;\n\n        self.emit_byte(OpCode::PopExcHandler as u8);",
+                "        self.end_scope();\n\n        self.emit_byte(OpCode::PopExcHandler as u8);"),
+               (COMP, "        self.patch_jump(catch_jump_pos);\n\n        self.patch_offset_at(handler_catch_arg_pos + 2, catch_start_pos);",
+                "        self.compiler_mut().in_try_block = prev_in_try_block;\n        self.patch_jump(catch_jump_pos);\n\n        self.patch_offset_at(handler_catch_arg_pos + 2, catch_start_pos);")]},
+    {'name': 'X8 (via C04) flag never restored', 'prop': 'C04', 'expect': 'X8 / try_statement writes the flag twice',
+     'edits': [(COMP, "        self.end_scope();\n        self.compiler_mut().in_try_block = prev_in_try_block;\n\n        self.emit_byte(OpCode::PopExcHandler as u8);",
+                "        self.end_scope();\n        let _ = prev_in_try_block;\n\n        self.emit_byte(OpCode::PopExcHandler as u8);")]},
+    {'name': 'X9 unwind_stack refreshes chunk and ip by hand, not the module', 'prop': 'C08', 'expect': 'X9 / yarel::vm::Vm::unwind_stack / frames.truncate',
+     'edits': [(VM, "        self.active_fiber_mut().current_frame_mut().unwrap().ip = handler.catch_ip;\n        self.load_frame();",
+                "        self.active_fiber_mut().current_frame_mut().unwrap().ip = handler.catch_ip;\n        self.ip = handler.catch_ip;")]},
+    {'name': 'X9 (via C14) return_impl skips load_frame', 'prop': 'C14', 'expect': 'X9 / yarel::vm::Vm::return_impl / frames.pop',
+     'edits': [(VM, "        self.load_frame();\n        self.active_fiber_mut().stack.truncate(prev_stack_size);",
+                "        let ip = self.active_fiber().current_frame().unwrap().ip;\n        self.ip = ip;\n        self.active_fiber_mut().stack.truncate(prev_stack_size);")]},
+    {'name': 'S5 yield closes the suspended fiber\'s upvalues', 'prop': 'C06', 'expect': 'S5 / yarel::vm::Vm::unload_fiber',
+     'edits': [(VM, "            self.active_fiber_mut().current_frame_mut().unwrap().ip = self.ip;\n        }\n        let caller = self.active_fiber().caller;",
+                "            self.active_fiber_mut().current_frame_mut().unwrap().ip = self.ip;\n            self.active_fiber_mut().close_upvalues(0);\n        }\n        let caller = self.active_fiber().caller;")]},
+    {'name': 'S5 (via C09) same change', 'prop': 'C09', 'expect': 'S5 / yarel::vm::Vm::unload_fiber',
+     'edits': [(VM, "            self.active_fiber_mut().current_frame_mut().unwrap().ip = self.ip;\n        }\n        let caller = self.active_fiber().caller;",
+                "            self.active_fiber_mut().current_frame_mut().unwrap().ip = self.ip;\n            self.active_fiber_mut().close_upvalues(0);\n        }\n        let caller = self.active_fiber().caller;")]},
+    {'name': 'E5 FormatString no longer emitted per part', 'prop': 'C05', 'expect': 'E5 / interpolation',
+     'edits': [(COMP, "            s.expression();\n            s.emit_byte(OpCode::FormatString as u8);\n", "            s.expression();\n")]},
+    {'name': 'D4 integer fast path in interpolation', 'prop': 'C19', 'expect': 'D4 / format_string_impl',
+     'edits': [(VM, "        let obj = Value::ObjString(self.new_gc_obj_string(format!(\"{}\", value).as_str()));\n        self.poke(0, obj);",
+                "        let text = match value {\n            Value::Number(n) if n.trunc() == n && n.abs() < 1e15 => (n as i64).to_string(),\n            _ => format!(\"{}\", value),\n        };\n        let obj = Value::ObjString(self.new_gc_obj_string(text.as_str()));\n        self.poke(0, obj);")]},
+    {'name': 'U5 range cache compares only the begin bound', 'prop': 'C13', 'expect': 'U5 / the finder compares',
+     'edits': [(VM, ".find(|&(r, _)| r.begin == begin && r.end == end);", ".find(|&(r, _)| r.begin == begin && r.end >= end);")]},
+    {'name': 'U5 range cache hit on either bound', 'prop': 'C13', 'expect': 'U5 / the finder answers true only when both',
+     'edits': [(VM, ".find(|&(r, _)| r.begin == begin && r.end == end);", ".find(|&(r, _)| r.begin == begin || r.end == end);")]},
+    {'name': 'M4 module registered before compile', 'prop': 'C15', 'expect': 'M4 / registration is dominated by the Ok arm of compile',
+     'edits': [(VM, "        let function = match compiler::compile(self, source, Some(&path)) {", "        let module = self.module(&path);\n        let function = match compiler::compile(self, source, Some(&path)) {"),
+               (VM, "        let module = self.module(&path);\n        self.push(Value::ObjModule(module));\n\n        let closure = self.new_root_obj_closure(function.as_gc(), module);",
+                "        self.push(Value::ObjModule(module));\n\n        let closure = self.new_root_obj_closure(function.as_gc(), module);")]},
+    {'name': 'T7 take_attribute hands the attribute out after the arity error', 'prop': 'C03', 'expect': 'T7 / take_attribute',
+     'edits': [(COMP, "                self.error_at(attr.name, &msg);\n                None", "                self.error_at(attr.name.clone(), &msg);\n                Some(attr)")]},
+    {'name': 'T7 derive attribute requested with zero arguments but indexed', 'prop': 'C03', 'expect': 'T7 / class_declaration',
+     'edits': [(COMP, 'self.take_attribute("derive", 1);', 'self.take_attribute("derive", 0);')]},
+    {'name': 'L5 line narrowed to 16 bits on the way to the chunk', 'prop': 'C17', 'expect': 'L5 / emit_byte',
+     'edits': [(COMP, "        let line = self.previous.line as i32;", "        let line = self.previous.line as u16 as i32;")]},
 ]
 
 BENIGN = [
+    {'name': 'VecIter::next saves the cursor, advances, then reads at the saved index', 'prop': 'C18',
+     'edits': [(OBJ, "        let ret = borrowed_vec.elements[self.current];\n        self.current += 1;\n        Some(ret)",
+                "        let i = self.current;\n        self.current = i + 1;\n        Some(borrowed_vec.elements[i])")]},
+    {'name': 'in_try_block restored after PopExcHandler is emitted (still before the catch block)', 'prop': 'C08',
+     'edits': [(COMP, "        self.end_scope();\n        self.compiler_mut().in_try_block = prev_in_try_block;\n\n        self.emit_byte(OpCode::PopExcHandler as u8);",
+                "        self.end_scope();\n\n        self.emit_byte(OpCode::PopExcHandler as u8);\n        self.compiler_mut().in_try_block = prev_in_try_block;")]},
+    {'name': 'line table widened to u32', 'prop': 'C17',
+     'edits': [(CHUNK, "    pub lines: Vec<i32>,", "    pub lines: Vec<u32>,"), (CHUNK, "pub fn write(&mut self, byte: u8, line: i32)", "pub fn write(&mut self, byte: u8, line: u32)"),
+               (COMP, "        let line = self.previous.line as i32;", "        let line = self.previous.line as u32;"),
+               (COMP, "        let line = token.line as i32;", "        let line = token.line as u32;")]},
+    {'name': 'range cache compares end first', 'prop': 'C13',
+     'edits': [(VM, ".find(|&(r, _)| r.begin == begin && r.end == end);", ".find(|&(r, _)| r.end == end && r.begin == begin);")]},
     {'name': 'then-jump patched through a helper variable, statements reordered', 'prop': 'C04',
      'edits': [(COMP, "        let else_jump = self.emit_jump(OpCode::Jump);\n\n        self.patch_jump(then_jump);", "        let else_jump = self.emit_jump(OpCode::Jump);\n        let tj = then_jump;\n\n        self.patch_jump(tj);")]},
     {'name': 'new trace-only cfg! print', 'prop': 'C10',
